@@ -46,6 +46,9 @@ type deepCase struct {
 
 const mainLen = 140
 
+// extLen more blocks of the same chain exist but are not imported at first (re-delivery family)
+const extLen = 6
+
 type deepWorld struct {
 	env  *chainkit.Env
 	main []*types.Block
@@ -55,7 +58,7 @@ type deepWorld struct {
 func newDeepWorld() *deepWorld {
 	env := chainkit.NewEnv(params.TestChainConfig, nil)
 	w := &deepWorld{env: env}
-	blocks, _ := env.Gen(env.Genesis, chainkit.FullFaker(), mainLen, func(i int, g *core.BlockGen) {})
+	blocks, _ := env.Gen(env.Genesis, chainkit.FullFaker(), mainLen+extLen, func(i int, g *core.BlockGen) {})
 	w.main = blocks
 	td := new(big.Int).Set(env.Genesis.Difficulty())
 	for _, b := range blocks {
@@ -200,6 +203,69 @@ func (w *deepWorld) run(c deepCase) (fails []string, trace string) {
 		check("R")
 	}
 	return fails, trace
+}
+
+// redeliver: the node has main[0:mainLen]; one batch (or two) then re-delivers its own chain from block
+// `from` - below or inside the state pruning horizon - and continues past the head to the end of the
+// extension. Blocks whose state was pruned are executed again, the recent ones are skipped as known, the
+// new ones are appended. Afterwards every block's stored TD is its prefix sum and the head is the tip.
+func (w *deepWorld) runRedeliver(from, split int) (fails []string, trace string) {
+	core.VerifResetLastWrite()
+	vrand.SetScript(nil)
+	db := w.env.NewChainDB()
+	bc, err := w.env.Open(db, chainkit.Pruning(), chainkit.FullFaker())
+	if err != nil {
+		return []string{"open: " + err.Error()}, ""
+	}
+	defer bc.Stop()
+	for i := 0; i < mainLen; i += 35 {
+		if _, err := bc.InsertChain(w.main[i : i+35]); err != nil {
+			return []string{"harness: main chain rejected: " + err.Error()}, ""
+		}
+	}
+	batch := w.main[from-1:]
+	calls := [][]*types.Block{batch}
+	if split > 0 && split < len(batch) {
+		calls = [][]*types.Block{batch[:split], batch[split:]}
+	}
+	for ci, bs := range calls {
+		if _, err := bc.InsertChain(bs); err != nil {
+			fails = append(fails, fmt.Sprintf("re-delivery call %d (blocks #%d..#%d): valid blocks rejected: %v", ci, bs[0].NumberU64(), bs[len(bs)-1].NumberU64(), err))
+			return fails, trace
+		}
+		trace += fmt.Sprintf("R%d@%d ", ci, bc.CurrentBlock().NumberU64())
+	}
+	for i, b := range w.main {
+		if got := bc.GetTd(b.Hash(), b.NumberU64()); got == nil || got.Cmp(w.td[i]) != 0 {
+			fails = append(fails, fmt.Sprintf("after re-delivery from #%d: stored TD of block #%d is %v, parent TD + difficulty is %v", from, i+1, got, w.td[i]))
+			break
+		}
+	}
+	if head := bc.CurrentBlock(); head.Hash() != w.main[len(w.main)-1].Hash() {
+		fails = append(fails, fmt.Sprintf("after re-delivery from #%d: head is #%d (TD %v) but the fully validated block #%d has TD %v (head is not a heaviest block)",
+			from, head.NumberU64(), bc.GetTd(head.Hash(), head.NumberU64()), len(w.main), w.td[len(w.td)-1]))
+	}
+	return fails, trace
+}
+
+type redeliverCase struct {
+	From  int `json:"from"`
+	Split int `json:"split"`
+}
+
+func redeliverCases(tier string) []redeliverCase {
+	froms := []int{1, 10, 13, 139, 141}
+	if tier == "thorough" {
+		froms = []int{1, 2, 5, 10, 11, 12, 13, 14, 70, 138, 139, 140, 141}
+	}
+	var out []redeliverCase
+	for _, f := range froms {
+		out = append(out, redeliverCase{f, 0})
+		if mainLen-f+1 > 2 {
+			out = append(out, redeliverCase{f, mainLen - f + 1 - 2}, redeliverCase{f, mainLen - f + 1 + 2})
+		}
+	}
+	return out
 }
 
 func deepCases(tier string) []deepCase {
@@ -381,6 +447,23 @@ func extraWorker(t *testing.T, shard, n int) {
 		if len(res.Samples) < 1 && c.Second {
 			res.Samples = append(res.Samples, map[string]interface{}{"deep": c, "trace": tr})
 		}
+	}
+	for i, c := range redeliverCases(tier) {
+		if i%n != shard {
+			continue
+		}
+		fails, tr := dw.runRedeliver(c.From, c.Split)
+		res.Evals++
+		res.Counters["redeliver_histories"]++
+		if len(fails) > 0 {
+			if f2, _ := dw.runRedeliver(c.From, c.Split); len(f2) == 0 {
+				ev.Broken("C02 redeliver verdict flipped: %v", fails)
+			}
+			res.Violations = append(res.Violations, ev.Violation{Scenario: "own-chain-redelivered", Oracle: oracleOf(fails[0]), CaseID: fmt.Sprintf("from=%d/split=%d", c.From, c.Split),
+				Detail: map[string]interface{}{"redeliver": c, "fails": fails}})
+			continue
+		}
+		classes[hash64(fmt.Sprintf("redeliver|%+v|%s", c, tr))] = true
 	}
 	env := chainkit.NewEnv(params.TestChainConfig, nil)
 	deadline := time.Now().Add(5 * time.Minute)
